@@ -69,6 +69,24 @@ def run_mutant(path, kind):
         shutil.rmtree(d, ignore_errors=True)
 
 
+def collect(prop):
+    """Run all mutants of one property; summary for the evidence file."""
+    res = []
+    for kind in ("breaking", "equivalent"):
+        for p in sorted(glob.glob(os.path.join(VERIF, "mutants", kind, prop, "*.json"))):
+            r = run_mutant(p, kind)
+            r["kind"] = kind
+            res.append(r)
+    return {
+        "breaking": sum(r["kind"] == "breaking" for r in res), "fired": sum(r["status"] == "fired" for r in res),
+        "equivalent": sum(r["kind"] == "equivalent" for r in res), "silent": sum(r["status"] == "silent" for r in res),
+        "skipped": sum(r["status"] == "skipped" for r in res),
+        "missed": [os.path.basename(r["mutant"]) for r in res if r["status"] == "MISSED"],
+        "false_alarms": [os.path.basename(r["mutant"]) for r in res if r["status"] == "FALSE-ALARM"],
+        "mutants": {os.path.basename(r["mutant"]): {"status": r["status"], "keys": r.get("keys", [])[:3]} for r in res},
+    }
+
+
 def main(props):
     res = []
     for kind in ("breaking", "equivalent"):
